@@ -31,6 +31,10 @@ HOSTS = [("mrow", "<math><mrow{I}><mi arg='a'>x</mi><mo>+</mo><mi arg='b'>y</mi>
           {"a": "below-other-arg", "b": "child", "c": "child"}),
          ("below-other-intent", "<math><mrow{I}><msqrt intent='blarg($a)'><mi arg='a'>x</mi></msqrt><mo>+</mo><mi arg='b'>y</mi></mrow></math>", {"a": "x", "b": "y"},
           {"a": "below-other-intent", "b": "child"}),
+         # rows whose other children are cleaned away (phantom, empty row, alignment marks): the row still carries the intent, its
+         # only surviving child still carries the arg
+         ("row-with-phantom", "<math><mi>k</mi><mo>=</mo><mrow{I}><mi arg='a'>x</mi><mphantom><mi>y</mi></mphantom></mrow></math>", {"a": "x"}, {"a": "child"}),
+         ("row-with-empty-sibling", "<math><mi>k</mi><mo>=</mo><mrow{I}><mrow/><mn arg='a'>7</mn><maligngroup/></mrow></math>", {"a": "7"}, {"a": "child"}),
          ("deep-other-arg", "<math><mfrac{I}><mrow arg='c'><mi>k</mi><mo>-</mo><msup><mi arg='a'>x</mi><mn>2</mn></msup></mrow><mi arg='b'>y</mi></mfrac></math>", {"a": "x", "b": "y", "c": "k"},
           {"a": "below-other-arg", "b": "child", "c": "child"})]
 HEADS = ["zork", "frobnitz", "quux", "blarg"]
